@@ -9,6 +9,7 @@ import (
 	"fmt"
 	"go/ast"
 	"go/token"
+	"go/types"
 )
 
 // Cond is the test on a conditional edge.
@@ -65,6 +66,12 @@ type cfgBuilder struct {
 	cur     *Block
 	targets []*target
 	labels  map[string]*target
+	// pending: a boolean local defined by the statement just lowered as a pure
+	// comparison / logical expression ("failed := newState == X"); a condition
+	// that tests it immediately afterwards is lowered as that expression, so that
+	// naming an intermediate does not hide the atoms from the fact engines.
+	pendingObj types.Object
+	pendingRhs ast.Expr
 }
 
 type target struct {
@@ -128,6 +135,11 @@ func (b *cfgBuilder) cond(e ast.Expr, t, f *Block) {
 	case *ast.ParenExpr:
 		b.cond(x.X, t, f)
 		return
+	case *ast.Ident:
+		if b.pendingObj != nil && b.p.ObjOf(x) == b.pendingObj {
+			b.cond(b.pendingRhs, t, f)
+			return
+		}
 	case *ast.UnaryExpr:
 		if x.Op == token.NOT {
 			b.cond(x.X, f, t)
@@ -157,9 +169,57 @@ func (b *cfgBuilder) cond(e ast.Expr, t, f *Block) {
 }
 
 func (b *cfgBuilder) stmtList(l []ast.Stmt) {
-	for _, s := range l {
+	for i, s := range l {
 		b.stmt(s, "")
+		// a pure boolean definition is remembered for the next statement only
+		b.pendingObj, b.pendingRhs = nil, nil
+		if i+1 < len(l) {
+			if _, nextIsIf := l[i+1].(*ast.IfStmt); nextIsIf {
+				b.notePureBool(s)
+			}
+		}
 	}
+	b.pendingObj, b.pendingRhs = nil, nil
+}
+
+// notePureBool records "v := <pure boolean expression>".
+func (b *cfgBuilder) notePureBool(s ast.Stmt) {
+	as, ok := s.(*ast.AssignStmt)
+	if !ok || as.Tok != token.DEFINE || len(as.Lhs) != 1 || len(as.Rhs) != 1 {
+		return
+	}
+	id, ok := as.Lhs[0].(*ast.Ident)
+	if !ok || !pureBoolExpr(as.Rhs[0]) {
+		return
+	}
+	b.pendingObj, b.pendingRhs = b.p.ObjOf(id), as.Rhs[0]
+}
+
+// pureBoolExpr: comparisons and logical combinations of operands without calls.
+func pureBoolExpr(e ast.Expr) bool {
+	switch x := unparen(e).(type) {
+	case *ast.BinaryExpr:
+		switch x.Op {
+		case token.LAND, token.LOR:
+			return pureBoolExpr(x.X) && pureBoolExpr(x.Y)
+		case token.EQL, token.NEQ, token.LSS, token.GTR, token.LEQ, token.GEQ:
+			return noCalls(x.X) && noCalls(x.Y)
+		}
+	case *ast.UnaryExpr:
+		return x.Op == token.NOT && pureBoolExpr(x.X)
+	}
+	return false
+}
+
+func noCalls(e ast.Expr) bool {
+	ok := true
+	ast.Inspect(e, func(n ast.Node) bool {
+		if _, isCall := n.(*ast.CallExpr); isCall {
+			ok = false
+		}
+		return ok
+	})
+	return ok
 }
 
 func (b *cfgBuilder) isPanic(call *ast.CallExpr) bool {
@@ -202,6 +262,7 @@ func (b *cfgBuilder) stmt(s ast.Stmt, label string) {
 	case *ast.IfStmt:
 		if s.Init != nil {
 			b.stmt(s.Init, "")
+			b.notePureBool(s.Init)
 		}
 		then := b.newBlock("if.then")
 		done := b.newBlock("if.done")
@@ -211,6 +272,7 @@ func (b *cfgBuilder) stmt(s ast.Stmt, label string) {
 		}
 		b.ensure()
 		b.cond(s.Cond, then, els)
+		b.pendingObj, b.pendingRhs = nil, nil
 		b.cur = then
 		b.stmt(s.Body, "")
 		if b.cur != nil {
